@@ -144,7 +144,10 @@ func atomicSnapshot(dest string, files []atomicFile) (snap []string, lnk string,
 	default:
 		lnk = "other"
 	}
-	listed := map[string]bool{"l": true, "f0": true, "zz-extra": true, "t-old": true} // (f0, zz-extra: only in --delete scenarios, t-old: lnkdir; not temp files)
+	listed := map[string]bool{"l": true, "f0": true, "zz-extra": true, "t-old": true}
+	if len(files) > 0 {
+		listed["."+files[len(files)-1].name+".bak"] = true // the up-to-date bystander (see atomicHandler)
+	} // (f0, zz-extra: only in --delete scenarios, t-old: lnkdir; not temp files)
 	for _, f := range files {
 		listed[f.name] = true
 	}
@@ -257,13 +260,23 @@ func atomicHandler(w *workerCtx, line []byte) (any, error) {
 	if s.LnkDir {
 		fl.Entries = append(fl.Entries, wirekit.Entry{Name: "t-old", Size: 4096, Mtime: 2_000_000, Mode: wirekit.SIFDIR | 0o755})
 	}
+	// a listed, UP-TO-DATE bystander whose name looks like the temporary name of another listed file ("." + name + suffix):
+	// nothing may ever touch it
+	bystander := "." + files[len(files)-1].name + ".bak"
+	if len(bystander) < 200 {
+		keep := []byte("bystander, up to date")
+		os.WriteFile(filepath.Join(dest, bystander), keep, 0o644)
+		now := time.Unix(2_000_000, 0)
+		os.Chtimes(filepath.Join(dest, bystander), now, now)
+		fl.Entries = append(fl.Entries, wirekit.Entry{Name: bystander, Size: int64(len(keep)), Mtime: 2_000_000, Mode: wirekit.SIFREG | 0o644})
+	}
 	// watch the destination directory: which listed names are ever unlinked or moved away
 	watch, werr := startWatch([]string{dest}, nil)
 	if werr != nil {
 		return nil, werr
 	}
 	defer watch.close()
-	hadPrev := map[string]bool{"l": true}
+	hadPrev := map[string]bool{"l": true, bystander: true}
 	for _, f := range files {
 		if f.old != nil {
 			hadPrev[f.name] = true
